@@ -71,6 +71,12 @@ var sinkContexts = []sinkCtx{
 	{"html-pi-inline", "a <?§?> b", coreExts, false},
 	{"html-cdata-inline", "a <![CDATA[§]]> b", coreExts, false},
 	{"html-decl-inline", "a <!A §> b", coreExts, false},
+	{"html-closure-comment", "<!--\nx\n-->§", coreExts, false},
+	{"html-closure-script", "<script>\nx\n</script>§", coreExts, false},
+	{"html-closure-pi", "<?\nx\n?>§", coreExts, false},
+	{"html-closure-decl", "<!A\nx\n>§", coreExts, false},
+	{"html-closure-cdata", "<![CDATA[\nx\n]]>§", coreExts, false},
+	{"html-closure-pre", "<pre>\nx\n</pre>§", coreExts, false},
 	{"attr-id", "# h {#§}", coreExts, true},
 	{"attr-class", "# h {.§}", coreExts, true},
 	{"attr-kv", "# h {k=§}", coreExts, true},
@@ -88,6 +94,9 @@ var sinkContexts = []sinkCtx{
 	{"attr-number", "# h {data-x=1§}", coreExts, true},
 	{"table-head", "|§|\n|-|\n|a|", []string{"table", "gfm", "all+cjk"}, false},
 	{"table-cell", "|a|\n|:-|\n|§|", []string{"table", "gfm", "all+cjk"}, false},
+	{"table-cell-code-pipe", "|a|\n|-|\n|`§\\|`|", []string{"table", "gfm", "all+cjk"}, false},
+	{"table-cell-code-pipe-2", "|a|\n|:-|\n|`x\\|§` `\\|`|", []string{"table", "gfm", "all+cjk"}, false},
+	{"table-cell-alt-code-pipe", "|a|\n|-|\n|![`§\\|`](u)|", []string{"table", "gfm", "all+cjk"}, false},
 	{"task", "- [ ] §", []string{"tasklist", "all+cjk"}, false},
 	{"strike", "~~§~~", []string{"strike", "all+cjk"}, false},
 	{"def-term", "§\n: d", []string{"deflist", "all+cjk"}, false},
